@@ -30,6 +30,13 @@ theorem fact_resolve_rejects_duplicate_ids : Facts.C12.resolveRejectsDuplicateId
 theorem fact_apply_max_test_first : Facts.C12.applyMaxTestBeforeTake = true := by decide
 theorem fact_apply_rejects_min_above_max : Facts.C12.applyRejectsMinAboveMax = true := by decide
 
+/-- `matchFilter` bounds the regular-expression run: a finite `MatchTimeout` constant is assigned before
+    `FindStringMatch` (the model's `re` is then a total function whose timeout outcome is `runErr`) -/
+theorem fact_regex_timeout_bounded :
+    Facts.C12.regexMatchTimeoutSetBeforeRun = true ∧
+    Facts.C12.regexMatchTimeoutValue ∈ ["time.Second", "time.Millisecond", "100 * time.Millisecond", "500 * time.Millisecond", "2 * time.Second"] := by
+  decide
+
 /-- the configuration the model is run with is the repaired one -/
 theorem fact_cfg_fixed : Facts.C12.cfg = Cfg.fixed := by decide
 
